@@ -8,6 +8,8 @@ from .build import AnalysisBroken
 
 G_WFAIL = ("G", "wfail")
 G_CFAIL = ("G", "cfail")
+G_APPENDING = ("G", "appending")   # inside a storage_append call
+G_APPENDED = ("G", "appended")     # an append succeeded since the last successful start
 
 KINDS = {
     "raw": ("raw_init", "BasicDevice_Storage_Raw"),
@@ -133,6 +135,8 @@ class StorageModel:
                 s = s.set(fdkey(loc), "closed")
         return s
 
+    stale_reads_without_append = set()
+
     # stale-cursor tracking (C14)
     def on_write(self, it, s, loc, compound):
         if not loc[0].startswith("obj:"):
@@ -140,11 +144,27 @@ class StorageModel:
         k = ("G", "dirty", loc)
         if compound:
             return s.set(k, 1)
+        # a plain store of a computed (non-constant) value while frames are being
+        # appended is acquisition-scoped state as well: the next acquisition
+        # must not read it before writing it
+        v = getattr(it, "last_written_value", None)
+        computed = v == TOP or v == NZ
+        if computed and s.get(G_APPENDING) and "append" in " ".join(it.stack):
+            return s.set(k, 1)
         if s.get(k):
             return s.delete_where(lambda x: x == k)
         return s
 
     def on_read(self, it, s, loc):
+        in_stop = any(fn.split("::")[-1].endswith("stop") for fn in it.stack)
+        if s.get(("G", "dirty", loc)) == 2 and (in_stop or not (s.get(G_APPENDING) or s.get(G_APPENDED))):
+            # ... or the device is being stopped: a cursor that stop reads and
+            # that was not rewritten means no frame was stored in this
+            # acquisition (zero frames, an empty packet, a failing first append)
+            # an acquisition without a single append (the properties that use
+            # this rule quantify over N >= 1 appended frames)
+            self.stale_reads_without_append.add(".".join(map(str, loc[1])))
+            return
         if s.get(("G", "dirty", loc)) == 2:
             fld = ".".join(map(str, loc[1]))
             self.report(it, "STALE-CURSOR", "%s|%s" % (fld, it.stack[-1] if it.stack else "?"),
@@ -268,6 +288,8 @@ class StorageModel:
                 dev = st.get(("devptr",))
                 before = model.dev_state(it, st)
                 st0 = st.delete_where(lambda k: k in (G_WFAIL, G_CFAIL))
+                if name == "storage_append":
+                    st0 = st0.set(G_APPENDING, 1)
                 outs = []
                 for rv, s2 in it.run(name, [dev] + extra, st0):
                     after = model.dev_state(it, s2) if name != "storage_close" else None
@@ -280,7 +302,12 @@ class StorageModel:
                     if name == "storage_start" and (s2.get(G_WFAIL) or s2.get(G_CFAIL)) and after == I(model.RUNNING):
                         model.report(it, "FAIL-CONTAINED", "start-failure-swallowed",
                                      "creating or writing the file failed during storage_start but the device reports Running")
+                    if name == "storage_append":
+                        s2 = s2.delete_where(lambda k: k == G_APPENDING)
+                        if rv == I(model.OK):
+                            s2 = s2.set(G_APPENDED, 1)
                     if name == "storage_start" and rv == I(model.OK):
+                        s2 = s2.delete_where(lambda k: k in (G_APPENDING, G_APPENDED))
                         # a new acquisition begins: cursors carried over from
                         # the previous one are stale from here on
                         upd = {k: 2 for k, v in s2.m.items()
